@@ -56,6 +56,8 @@ Emit == i = NE + 1 => PrintT(ToJson(order))
 ToSet(seq) == { seq[j] : j \in 1..Len(seq) }
 Und(o) == IF Len(o) > 2 /\ SubSeq(o, 3, 3) = "." THEN SubSeq(o, 1, 2) \o "_" \o SubSeq(o, 4, Len(o)) ELSE o
 DescLines(o) == << "tok_" \o Und(o) \o "_desc first line.", "Second line of " \o Und(o) \o "." >>
+(* the code lines of fa's example: the prompts become comment marks, everything behind them is kept as written *)
+ExCode(o) == IF o = "fa" THEN << "// tok_fa_ex(\">>> 1\",", "//        [...])" >> ELSE << >>
 Structured(style) == style # "PLAINTEXT"
 (* which items a style can carry: plain text keeps the whole docstring as description; reST has no examples section *)
 Carried(it, style) ==
@@ -78,6 +80,8 @@ Judge(obs) ==
          : it \in { it \in exp : Structured(obs.style) /\ \E f \in at(it) : f.decl = it[1] /\ (f.tag # it[3] \/ (it[3] \in {"param", "result"} /\ f.tagname # it[4])) } }
   \cup { [property |-> "C13", clause |-> "Attach", sig |-> "result-tag-names-no-result:" \o obs.style, expected |-> ToString(f.sigres), observed |-> f.tagname]
          : f \in { f \in F : Structured(obs.style) /\ f.tag = "result" /\ f.tagname \notin ToSet(f.sigres) } }
+  \cup { [property |-> "C13", clause |-> "Intact", sig |-> "example-lines:" \o obs.style, expected |-> ToString(ExCode(l.decl)), observed |-> ToString(l.excode)]
+         : l \in { l \in ToSet(obs.lines) : obs.style \in {"NUMPYDOC", "GOOGLE"} /\ l.excode # ExCode(l.decl) } }
   \cup { [property |-> "C13", clause |-> "Intact", sig |-> "description-lines:" \o obs.style, expected |-> ToString(DescLines(l.decl)), observed |-> ToString(l.text)]
          : l \in { l \in ToSet(obs.lines) : l.text # DescLines(l.decl) } }
 
